@@ -182,7 +182,7 @@ func main() {
 					for _, a := range curs {
 						for _, b := range curs {
 							sels := [][2]bool{{R.Chance(3, 4), R.Bool()}}
-							if n == 0 {
+							if n == 0 && (a == nil || b == nil || a == b) {
 								sels = [][2]bool{{false, false}, {true, false}, {false, true}, {true, true}}
 							}
 							for _, s := range sels {
@@ -238,7 +238,7 @@ func main() {
 	}
 
 	// ---- random larger edge sets: requests and walks
-	for i := 0; i < run.Scale(400, 6000); i++ {
+	for i := 0; i < run.Scale(4000, 60000); i++ {
 		r := R.Fork()
 		n := r.Range(0, run.Scale(14, 60))
 		seen := map[int]bool{}
